@@ -5,7 +5,7 @@ correspondence between the two copies.
 -/
 import TmVerif.Model.Listing
 
-namespace TmVerif
+namespace TmVerif.Listing
 
 theorem flatMap_congr_mem {α β : Type} (l : List α) (f g : α → List β) (h : ∀ x ∈ l, f x = g x) :
     l.flatMap f = l.flatMap g := by
@@ -241,4 +241,4 @@ theorem kbdRun_eq_keyboardsOf_devRun (w : Work) (ls : List (List Char)) :
   rw [e] at h
   rw [h]
 
-end TmVerif
+end TmVerif.Listing
